@@ -332,12 +332,23 @@ func (c *VirtualTable) Delete(value sqlite.Value) error {
 }
 
 func (c *VirtualTable) Begin() error {
+	fixedHere := false
 	if c.module.sc.writeTime.IsZero() {
 		c.module.sc.writeTime = time.Now()
 		c.module.sc.txFixedWriteTime = true
 		c.module.sc.ResetContext()
+		fixedHere = true
 	}
-	return toSqlite(c.common.Begin(c.module.sc.ctx))
+	err := c.common.Begin(c.module.sc.ctx)
+	if err != nil && fixedHere {
+		// SQLite calls neither Commit nor Rollback for a table whose Begin
+		// failed, so the transaction's write time has to be dropped here;
+		// otherwise it stays in force for all later statements.
+		c.module.sc.writeTime = time.Time{}
+		c.module.sc.txFixedWriteTime = false
+		c.module.sc.ResetContext()
+	}
+	return toSqlite(err)
 }
 
 func (c *VirtualTable) Commit() error {
